@@ -72,12 +72,13 @@ class Sink:
 
 
 class Taint:
-    def __init__(self, world, doc_types, decoded_enums=(), source_calls=None):
+    def __init__(self, world, doc_types, decoded_enums=(), source_calls=None, bounded_sanitize=True):
         self.w = world
         self.lib = world.lib
         self.g = world.graph
         self.doc_types = set(doc_types)
         self.source_calls = source_calls or SOURCE_CALLS
+        self.bounded_sanitize = bounded_sanitize
         self.decoded_enums = set(decoded_enums)
         self.V = defaultdict(set)     # (body, local) -> labels
         self.D = defaultdict(set)
@@ -390,7 +391,7 @@ class Taint:
                 D = set(argD[0]) if argD else set()
                 for v in argV[1:]:
                     V |= v
-            elif IO_CALLS.search(name) or BOUNDED_RESULT.search(name):
+            elif IO_CALLS.search(name) or (self.bounded_sanitize and BOUNDED_RESULT.search(name)):
                 V = set()
             else:
                 V = set(anyV)
